@@ -207,7 +207,7 @@ func (w *world) check(t *rapid.T, trace string, sub *stats.Sub) {
 }
 
 func TestPropNameOwnership(t *testing.T) {
-	sub := stats.NewSub("name-ownership-histories", "rapid state machine on the real controller: ops create/update a cluster (valid object; server names drawn from a pool with case variants; two in three not claimed by another object, one in three free to collide with names another cluster holds, including an object NAMED like another cluster's server name), delete, duplicate delivery (the event may carry a superseded version of the object; also of the delete event of a vanished or refused object); model: a delivery whose latest object claims a name held by another cluster is refused and changes nothing, any other delivery makes the latest object the served one; during every update two readers look up the names the cluster keeps (they must resolve to it at every moment); after every event, for every name of the pool x {as is, upper case, with port}: Manager.Get(HostWithoutPort(h)), the tls.Config for a ClientHello with that SNI (certificate, client-CA subjects) and SNIVerifyOptions must be those of the model's owner or nobody's (a name listed only by the refused or only by the still-served version of a cluster may resolve to it or to nobody); non-trivial = the history moves an alias between clusters, reuses a name after a delete, has a name owned under a different case than looked up, or has a refused object; distinct by FNV-64 of the op trace")
+	sub := stats.NewSub("name-ownership-histories", "rapid state machine on the real controller: ops create/update a cluster (valid object; server names drawn from a pool with case variants; two in three not claimed by another object, one in three free to collide with names another cluster holds, including an object NAMED like another cluster's server name), delete, delete-and-create-again under the same name with a new uid before the controller has processed the deletion, duplicate delivery (the event may carry a superseded version of the object; also of the delete event of a vanished or refused object); model: a delivery whose latest object claims a name held by another cluster is refused and changes nothing, any other delivery makes the latest object the served one; during every update two readers look up the names the cluster keeps (they must resolve to it at every moment); after every event, for every name of the pool x {as is, upper case, with port}: Manager.Get(HostWithoutPort(h)), the tls.Config for a ClientHello with that SNI (certificate, client-CA subjects) and SNIVerifyOptions must be those of the model's owner or nobody's (a name listed only by the refused or only by the still-served version of a cluster may resolve to it or to nobody); non-trivial = the history moves an alias between clusters, reuses a name after a delete, has a name owned under a different case than looked up, or has a refused object; distinct by FNV-64 of the op trace")
 	mats := pki.WithRenewals(3) // three key pairs, each with a renewed certificate for the same key
 	stats.Check(t, stats.N(1500, 8000), func(t *rapid.T) {
 		w := &world{box: ctlbox.New(), api: map[string]*proxyv1alpha1.UpstreamCluster{}, applied: map[string]*proxyv1alpha1.UpstreamCluster{}}
@@ -249,7 +249,7 @@ func TestPropNameOwnership(t *testing.T) {
 			// names the cluster holds before and after this delivery must resolve to it AT EVERY MOMENT: two readers
 			// look them up while the controller processes the event
 			var kept []string
-			if cur := w.applied[name]; cur != nil && !conflict {
+			if cur := w.applied[name]; cur != nil && !conflict && cur.UID == obj.UID { // (an object created again is another object: no such demand)
 				after := namesOf(name, obj)
 				for h := range namesOf(name, cur) {
 					if after[h] {
@@ -352,6 +352,38 @@ func TestPropNameOwnership(t *testing.T) {
 				trace += fmt.Sprintf("delete(%s);", name)
 				deliver(t, name)
 				sub.Class("delete")
+			},
+			"recreate": func(t *rapid.T) {
+				// the object is deleted and created again under the same name (a new uid, other names) before the
+				// controller has seen the deletion: the next event it processes - the delete event, a queued event of the
+				// old object, or the add event - already finds the new object in the lister
+				name := rapid.SampledFrom(clusterNames).Draw(t, "cluster")
+				old := w.api[name]
+				if old == nil || w.applied[name] == nil {
+					t.Skip("not stored or not served")
+				}
+				taken := w.claimedByOthers(name)
+				if taken[name] {
+					t.Skip("the cluster name is claimed as an alias by another object")
+				}
+				var pool []string
+				for _, a := range aliasPool {
+					if !taken[strings.ToLower(a)] {
+						pool = append(pool, a)
+					}
+				}
+				obj := gen.GenValidCluster(t, "obj", name, gen.ObjOpts{Endpoints: []string{"http://127.0.0.1:1", "http://127.0.0.1:2"}, ServerNames: pool, PKI: mats, SchemaNames: []string{"s1"}, NoGlobal: true})
+				if errs := validation.ValidateUpstreamCluster(obj); len(errs) > 0 {
+					t.Fatalf("harness: generated object is not valid: %v", errs)
+				}
+				w.box.Remove(old)
+				w.box.Store(obj)
+				w.api[name], last[name] = obj, obj
+				versions[name] = append(versions[name], obj) // earlier versions (of the deleted object) may still arrive as events
+				trace += fmt.Sprintf("recreate(%s,uid %s -> %s,names=%q);", name, old.UID, obj.UID, obj.Spec.SecureServing.ServerNames)
+				deliver(t, name)
+				nt = true
+				sub.Class("deleted-and-created-again-before-the-deletion-was-processed")
 			},
 			"redeliver": func(t *rapid.T) {
 				name := rapid.SampledFrom(clusterNames).Draw(t, "cluster")
